@@ -147,6 +147,33 @@ TWINS_OTHER = {  # rules that are not about layout: the twin must be rejected (o
                                             "_after_message": '    <sbe:message name="m2" id="2">\n' + T_ + '<field name="a" id="1" type="uint8"/>\n' + T_ + '<group name="g2" id="2" dimensionType="vd">\n' + T_ + '    <field name="x" id="3" type="uint8"/>\n' + T_ + '</group>\n    </sbe:message>\n'},
     "data_header_vardata_with_length": {"extra_types": T_ + '<composite name="vdl">\n' + T_ + '    <type name="length" primitiveType="uint8"/>\n' + T_ + '    <type name="varData" primitiveType="uint8" length="4"/>\n' + T_ + '</composite>\n',
                                         "_after_group": T_ + '<data name="xd" id="21" type="vdl"/>\n'},
+    # more rules the parser / validator enforce (each observed to be rejected with a located diagnostic on the unchanged tree): uniqueness of types (case-insensitive), messages, message ids,
+    # level members and composite members; header member shapes; member order; value / reference / attribute well-formedness; enum encoding kinds
+    "duplicate_type_name": {"extra_types": T_ + '<type name="lim" primitiveType="uint16"/>\n'},
+    "duplicate_type_name_case": {"extra_types": T_ + '<type name="LIM" primitiveType="uint16"/>\n'},
+    "duplicate_message_name": {"_after_message": '    <sbe:message name="m" id="2">\n' + T_ + '<field name="a" id="1" type="uint8"/>\n    </sbe:message>\n'},
+    "duplicate_message_id": {"_after_message": '    <sbe:message name="m2" id="1">\n' + T_ + '<field name="a" id="1" type="uint8"/>\n    </sbe:message>\n'},
+    "duplicate_group_name": {"_after_group": T_ + '<group name="g" id="25">\n' + T_ + '    <field name="q" id="26" type="uint8"/>\n' + T_ + '</group>\n'},
+    "group_named_like_field": {"_after_group": T_ + '<group name="a" id="25">\n' + T_ + '    <field name="q" id="26" type="uint8"/>\n' + T_ + '</group>\n'},
+    "duplicate_composite_member_name": {"extra_types": T_ + '<composite name="dcm">\n' + T_ + '    <type name="p" primitiveType="uint8"/>\n' + T_ + '    <type name="p" primitiveType="uint16"/>\n' + T_ + '</composite>\n'},
+    "header_blocklength_array": {"_replace": ('<type name="blockLength" primitiveType="uint16"/>\n            <type name="templateId"', '<type name="blockLength" primitiveType="uint8" length="2"/>\n            <type name="templateId"')},
+    "header_blocklength_constant": {"_replace": ('<type name="blockLength" primitiveType="uint16"/>\n            <type name="templateId"', '<type name="blockLength" primitiveType="uint16" presence="constant">16</type>\n            <type name="templateId"')},
+    "data_without_length": {"extra_types": T_ + '<composite name="vs">\n' + T_ + '    <type name="varData" primitiveType="uint8" length="0"/>\n' + T_ + '</composite>\n', "_after_group": T_ + '<data name="xd" id="21" type="vs"/>\n'},
+    "field_after_group": {"_after_group": T_ + '<field name="late" id="30" type="uint8"/>\n'},
+    "group_after_data": {"_after_group": T_ + '<data name="xd" id="21" type="vdq"/>\n' + T_ + '<group name="g9" id="25">\n' + T_ + '    <field name="q" id="26" type="uint8"/>\n' + T_ + '</group>\n', "extra_types": T_ + '<composite name="vdq">\n' + T_ + '    <type name="length" primitiveType="uint8"/>\n' + T_ + '    <type name="varData" primitiveType="uint8" length="0"/>\n' + T_ + '</composite>\n'},
+    "negative_choice_index": {"extra_types": T_ + '<set name="ni" encodingType="uint8">\n' + T_ + '    <choice name="x">-1</choice>\n' + T_ + '</set>\n'},
+    "valueref_unknown_enum": {"extra_types": T_ + '<type name="vr2" primitiveType="uint16" presence="constant" valueRef="nosuch.x"/>\n'},
+    "valueref_unknown_value": {"extra_types": T_ + '<type name="vr2" primitiveType="uint16" presence="constant" valueRef="eb.nosuch"/>\n'},
+    "constant_without_value": {"extra_types": T_ + '<type name="cwv" primitiveType="uint16" presence="constant"></type>\n'},
+    "negative_offset": {"b_off": "-1"},
+    "message_id_not_numeric": {"_replace": ('<sbe:message name="m" id="1"', '<sbe:message name="m" id="x1"')},
+    "missing_field_id": {"m_bl": "20", "extra_fields": T_ + '<field name="noid" type="uint8"/>\n'},
+    "missing_field_type": {"m_bl": "20", "extra_fields": T_ + '<field name="noty" id="40"/>\n'},
+    "ref_to_unknown": {"extra_types": T_ + '<composite name="ru">\n' + T_ + '    <ref name="r" type="nosuch"/>\n' + T_ + '</composite>\n'},
+    "self_ref_composite": {"extra_types": T_ + '<composite name="selfc">\n' + T_ + '    <ref name="r" type="selfc"/>\n' + T_ + '</composite>\n'},
+    "enum_encoding_unknown": {"extra_types": T_ + '<enum name="eu" encodingType="nosuch">\n' + T_ + '    <validValue name="x">1</validValue>\n' + T_ + '</enum>\n'},
+    "enum_encoding_is_enum": {"extra_types": T_ + '<enum name="ee" encodingType="eb">\n' + T_ + '    <validValue name="x">1</validValue>\n' + T_ + '</enum>\n'},
+    "enum_encoding_array_type": {"extra_types": T_ + '<type name="a2" primitiveType="uint8" length="2"/>\n' + T_ + '<enum name="ea" encodingType="a2">\n' + T_ + '    <validValue name="x">1</validValue>\n' + T_ + '</enum>\n'},
     "header_without_version": {"_drop": '            <type name="version" primitiveType="uint16"/>\n'},
     "dimension_without_numingroup": {"_drop": '            <type name="numInGroup" primitiveType="uint16"/>\n'},
 }
@@ -331,6 +358,8 @@ uint32_t isalnum(uint32_t c){ return isdigit(c) || isalpha(c); }
         if params.get("_after_message"): text = text.replace("    </sbe:message>\n</sbe:messageSchema>", "    </sbe:message>\n" + params["_after_message"] + "</sbe:messageSchema>")
         if params.get("_drop"):
             assert params["_drop"] in text; text = text.replace(params["_drop"], "", 1)
+        if params.get("_replace"):
+            a_, b_ = params["_replace"]; assert a_ in text; text = text.replace(a_, b_, 1)
         open(xml, "w").write(text)
         rc, out, inc = ctx.slot.generate(xml)
         first = (out.strip().split("\n") or [""])[0][:200]
